@@ -274,6 +274,45 @@ def clearBlob (c : Cpu) : Cpu := { c with blob := [], blobSet := false }
 def poke (c : Cpu) (off : Nat) (bs : Bytes) : Option Cpu :=
   if c.blobSet ∧ off + bs.length ≤ c.blob.length then some { c with blob := patch c.blob off bs } else none
 
+/-! ## Xen: `.xen_prstatus` — one fixed-size register record per virtual CPU
+
+`process_x86_64_xen_prstatus` (`x86_64.c`) cuts the section into records of
+`sizeof(struct xen_vcpu_guest_context)` bytes (a trailing partial record is ignored),
+stores record `n` as blob `cpu.<n>.XEN_PRSTATUS` and creates the derived attributes
+`cpu.<n>.reg.*` with the Xen record layout (`create_xen_cpu_regs`, `util.c`); their
+hooks are the same `derived_attr_revalidate` / `derived_attr_update` as for PRSTATUS,
+bound to the Xen blob of the same CPU. -/
+
+/-- the `while (size >= sizeof(struct xen_vcpu_guest_context))` loop; fuel = section size -/
+def xenSplit (recsz : Nat) : Nat → Bytes → List Bytes
+  | 0, _ => []
+  | fuel+1, data =>
+    if recsz = 0 ∨ data.length < recsz then []
+    else data.take recsz :: xenSplit recsz fuel (data.drop recsz)
+
+/-- the per-CPU views a Xen register section creates -/
+def xenCpus (be : Bool) (recsz : Nat) (defs : List RegDef) (data : Bytes) : List Cpu :=
+  (xenSplit recsz data.length data).map fun b =>
+    { be := be, blob := b, blobSet := true, regs := defs.map fun d => { d := d } }
+
+/-- `kdump_get_attr(cpu.<n>.reg.X)` -/
+def cpusGetReg (cs : List Cpu) (n i : Nat) : Status × List Cpu × Option Nat :=
+  match cs[n]? with
+  | none => (.nokey, cs, none)
+  | some c => let r := getReg c i; (r.1, setNth cs n r.2.1, r.2.2)
+
+/-- `kdump_set_attr(cpu.<n>.reg.X, v)` -/
+def cpusSetReg (cs : List Cpu) (n i v : Nat) : Status × List Cpu :=
+  match cs[n]? with
+  | none => (.nokey, cs)
+  | some c => let r := setReg c i v; (r.1, setNth cs n r.2)
+
+/-- an operation on the blob attribute of CPU `n` (replace, clear, edit in place) -/
+def cpusUpdate (cs : List Cpu) (n : Nat) (f : Cpu → Option Cpu) : Option (List Cpu) :=
+  match cs[n]? with
+  | none => none
+  | some c => (f c).map (setNth cs n)
+
 /-! ## VMCOREINFO -/
 
 structure Row where
